@@ -257,7 +257,11 @@ def execute_spec(spec):
         # query list that is a list, not a name); the lookups that follow must not be answered from what such a pass left behind
         if r.random() < 0.5:
             for k in r.sample([1, 2, 3, max(1, m['n'] // 2), None, None], r.choice([1, 2, 3])):
-                queries.insert(r.randrange(0, min(len(queries), 12) + 1), ['iter', k])
+                at = r.randrange(0, min(len(queries), 12) + 1)
+                queries.insert(at, ['iter', k])
+                if k is not None and r.random() < 0.7:
+                    # the suspended enumeration is resumed later, after other lookups (and enumerations) used the same stream
+                    queries.insert(r.randrange(at + 1, min(len(queries), at + 8) + 1), ['resume', r.choice([1, 2, None])])
         displace = [r.choice([None, None, 0, 1, len(data), r.randrange(len(data))]) for _ in queries] \
             if r.random() < 0.6 else [None] * len(queries)
         via_segment = (spec['variant'] % 5 == 4)
@@ -366,6 +370,7 @@ def execute_spec(spec):
         elif ev[0] == 'bloom_fp':
             ev_names[ev[1]] = 'bloom_false_positive'
 
+    live = [None, 0]          # the enumeration the caller keeps suspended, and how many entries it has handed out
     for qi, q in enumerate(queries):
         dp = displace[qi] if qi < len(displace) else None
         if dp is not None:
@@ -374,15 +379,23 @@ def execute_spec(spec):
             if via_segment or not m['enum_ok'] or not hasattr(symtab, 'iter_symbols'):
                 continue
             k = q[1]
+            if q[0] == 'resume' and live[0] is None:
+                continue
             try:
-                gotl = [canon(s_) for s_ in itertools.islice(symtab.iter_symbols(), k)]
+                if q[0] == 'iter':
+                    live[0] = iter(symtab.iter_symbols())
+                    live[1] = 0
+                gotl = [canon(s_) for s_ in itertools.islice(live[0], k)]
                 gn = symtab.num_symbols()
             except Exception as e:
                 gotl = exc_obs(e); gn = None
-            exp = m['canon'] if k is None else m['canon'][:k]
+            exp = m['canon'][live[1]:] if k is None else m['canon'][live[1]:live[1] + k]
+            live[1] += len(exp)
+            if k is None:
+                live[0] = None
             if gotl != exp or gn != m['n']:
                 viol('enumeration-held', 'enumerating the held table (first k entries, or all) yields the table entries in index order, whatever was enumerated or looked up before',
-                     dict(take=k, entries=len(exp), num_symbols=m['n']), dict(entries=len(gotl) if isinstance(gotl, list) else jsonable(gotl, 200), num_symbols=gn), q)
+                     dict(op=q[0], take=k, entries=len(exp), num_symbols=m['n']), dict(entries=len(gotl) if isinstance(gotl, list) else jsonable(gotl, 200), num_symbols=gn), q)
             probes['held_enumerations'] = probes.get('held_enumerations', 0) + 1
             log.append(('iter', k, len(gotl) if isinstance(gotl, list) else 'exc'))
             continue
@@ -488,4 +501,4 @@ def extra_coverage(prop, tier, agg):
 
 def main(prop, tier, seed, budget):
     return runner.explore(__import__('dst.engines.idxsim', fromlist=['x']), prop, tier, seed,
-                          batch=40, budget_s=budget or (150 if tier == 'quick' else 1500), max_keys=8)
+                          batch=40, isolate=60, budget_s=budget or (150 if tier == 'quick' else 1500), max_keys=8)
